@@ -12,11 +12,19 @@ def _accept_tables(tier, seed):
     return []
 
 
+def _c18_tables(tier, seed):
+    import vgen
+    _STATS["c18"] = vgen.gen_c18()
+    return []
+
+
 _STATS = {}
-PRE = {"C01": _accept_tables, "C02": _accept_tables, "C03": _accept_tables}
+PRE = {"C01": _accept_tables, "C02": _accept_tables, "C03": _accept_tables, "C18": _c18_tables}
 EXTRA = {
     "C01": lambda: {"acceptance_table": _STATS.get("accept"),
                     "acceptance_table_source": "real parser + HIR diagnostics of /repo run natively by /verif/extract on one generated program (one statement per operator/type triple)"},
     "C02": lambda: {"acceptance_table": _STATS.get("accept")},
     "C03": lambda: {"acceptance_table": _STATS.get("accept")},
+    "C18": lambda: {"dispatcher_table": _STATS.get("c18"),
+                    "dispatcher_table_source": "regex recogniser over control/handlers/{status,io,debug,variables,program}.rs of the current tree; specification side: tables/c18_readonly_handlers.txt"},
 }
